@@ -104,7 +104,7 @@ def rand_op(rng):
         return ["restart", rng.randrange(2)] if rng.random() < 0.6 else ["procdo", i, rng.randrange(5)]
     if r < 0.99:
         return ["drop_all"]
-    return ["junk", rng.randrange(2), rng.randrange(7)]
+    return ["junk", rng.randrange(2), rng.randrange(9)]
 
 
 def gen_cases(ctx):
